@@ -84,8 +84,10 @@ def reader_skeleton(items):
 def run(chk, tier):
     P = Prog("default")
     chk.configs.add("default")
-    for r in (r_naive, r_datetime, r_offset, r_names, r_delegation):
+    for r in (r_naive, r_datetime, r_offset, r_names, r_delegation, r_fraction_base):
         chk.guarded(r, P, tier)
+    from props import c13
+    chk.guarded(c13.r_sign_arms, P, tier)
     chk.assume("sign/width of out-of-range years, the 0/3/6/9 fraction digits, second 60 and offset padding (the round trip itself) are NOT decided")
     return {
         "explanation": "Narrow claim for C09: the default writers and the readers agree structurally. The separator/placeholder skeleton written by Debug (and Display) of "
@@ -215,3 +217,28 @@ def r_delegation(chk, P, tier):
         s = skeletons(P, "<%s as std::fmt::Display>::fmt" % ty)
         short = ty.split("::")[-1]
         chk.expect(s == {"<%s:Debug>" % short}, ty, "%s Display writes %s, expected delegation to Debug" % (ty, sorted(s)))
+
+
+def r_fraction_base(chk, P, tier):
+    """NaiveTime's Debug/Display choose 0/3/6/9 fractional digits by testing the sub-second value and print a quotient of it: on every path the
+    value that is tested and the value that is printed are the same term (the leap-adjusted fraction on leap-second paths)"""
+    from rules import path_bases
+    chk.rule("SIB.fraction_base", "in NaiveTime's Debug::fmt the fraction tested for trailing zeros and the fraction printed are one and the same value on every path", floor=4)
+    fn = "<naive::time::NaiveTime as std::fmt::Debug>::fmt"
+    src = ("field", ("deref", ("arg", 1)), 1)
+    if [f["name"] for f in P.adts["naive::time::NaiveTime"]["variants"][0]["fields"]][1] != "frac":
+        raise AnchorLost("NaiveTime field 1 is not frac")
+    n1 = 0
+    worst = None
+    for p in Sym(P, fn).paths():
+        if p.end[0] != "return":
+            continue
+        b = path_bases(p, lambda x: x == src, (1000, 1000000))
+        if len(b) == 1:
+            n1 += 1
+        elif len(b) > 1 and worst is None:
+            worst = sorted(pp(x)[:60] for x in b)
+    chk.expect(worst is None, "single base", "NaiveTime's Debug::fmt tests and prints different sub-second values on one path: %s" % worst, loc=P.loc(fn))
+    for k in range(min(n1, 3)):
+        chk.ok("path with one base #%d" % (k + 1))
+    chk.expect(n1 >= 3, "fraction paths found", "only %d paths of NaiveTime's Debug::fmt use the sub-second value (anchor lost)" % n1)
